@@ -1687,3 +1687,94 @@ Example no_permission_no_publisher_refuted :
    | None => true
    end) = false.
 Proof. vm_compute. reflexivity. Qed.
+
+(* ------------------------------------------------------------------ what the media server is told *)
+(* the objects are closed AT the media server: a close request is among the outputs of the step *)
+Lemma close_tokens_emits h ts tok : In tok ts -> In tok (h_mcuopen h) -> In (ToMcu (MClose tok)) (snd (close_tokens h ts)).
+Proof.
+  intros Ht Ho. unfold close_tokens. cbn [snd]. apply in_map_iff. exists tok. split; [reflexivity|].
+  apply filter_In. split; [assumption|]. now apply nmem_In.
+Qed.
+Lemma release_mcu_emits h sid s tok :
+  get_sess h sid = Some s -> In tok (toks s) -> In tok (h_mcuopen h) -> In (ToMcu (MClose tok)) (snd (release_mcu h sid)).
+Proof. intros Hs Ht Ho. unfold release_mcu. rewrite Hs. now apply close_tokens_emits. Qed.
+
+Lemma rs_del_open h sid : h_mcuopen (rs_del h sid) = h_mcuopen h.
+Proof. unfold rs_del. now destruct (rs_set_mcu h sid 0) as (_ & _ & ->). Qed.
+
+Theorem leave_room_emits_close h sid n s k tok :
+  get_sess h sid = Some s -> s_room s = Some k -> is_virtual (s_kind s) = false ->
+  In tok (map snd s.(s_pubs) ++ map snd s.(s_subs)) -> In tok (h_mcuopen h) ->
+  In (ToMcu (MClose tok)) (snd (leave_room h sid n)).
+Proof.
+  intros Hs Hk Hv Ht Ho. unfold leave_room. rewrite Hs, Hk, Hv.
+  match goal with |- context [release_mcu ?hh sid] => pose proof (release_mcu_emits hh sid _ tok (get_put_eq _ _ _)) as E; destruct (release_mcu hh sid) as [h3 o2] end.
+  cbn [snd] in *. apply in_or_app. right. apply E; [exact Ht|].
+  msimpl. rewrite rs_del_open. exact Ho.
+Qed.
+Theorem leave_call_emits_close h sid s k tok :
+  get_sess h sid = Some s -> s_room s = Some k -> is_virtual (s_kind s) = false ->
+  In tok (map snd s.(s_pubs) ++ map snd s.(s_subs)) -> In tok (h_mcuopen h) ->
+  In (ToMcu (MClose tok)) (snd (leave_call h sid)).
+Proof.
+  intros Hs Hk Hv Ht Ho. unfold leave_call. rewrite Hs, Hk. destruct (s_kind s); try discriminate; now apply release_mcu_emits with s.
+Qed.
+Theorem revoke_emits_close h sid s stream tok :
+  get_sess h sid = Some s -> In (stream, tok) s.(s_pubs) ->
+  offer_allowed s.(s_perms) stream (media_of s.(s_pubmedia) tok) = false -> In tok (h_mcuopen h) ->
+  In (ToMcu (MClose tok)) (snd (revoke h sid)).
+Proof.
+  intros Hs Hin Hoff Ho. rewrite revoke_eq, Hs. apply close_tokens_emits; [|exact Ho].
+  apply in_map_iff. exists (stream, tok). split; [reflexivity|]. apply filter_In. split; [assumption|].
+  rewrite pub_bad_spec, Hoff. reflexivity.
+Qed.
+
+Lemma room_remove_open h k sid : h_mcuopen (room_remove h k sid) = h_mcuopen h.
+Proof.
+  unfold room_remove. destruct (room_of h k) as [r|]; [|reflexivity]. destruct (nmem sid (r_members r)); [|reflexivity].
+  unfold publish, remove_room_if_empty.
+  match goal with |- context [room_of ?hh k] => destruct (room_of hh k) as [r1|] end; [destruct (r_members r1)|]; reflexivity.
+Qed.
+
+Theorem close_one_emits_close h sid s tok :
+  get_sess h sid = Some s -> In tok (map snd s.(s_pubs) ++ map snd s.(s_subs)) -> In tok (h_mcuopen h) ->
+  In (ToMcu (MClose tok)) (snd (close_one h sid)).
+Proof.
+  intros Hs Ht Ho. unfold close_one. rewrite Hs.
+  assert (Hcases : In (ToMcu (MClose tok)) (snd (leave_room h sid true)) \/
+                   (exists s1, get_sess (fst (leave_room h sid true)) sid = Some s1 /\ toks s1 = toks s) /\
+                   h_mcuopen (fst (leave_room h sid true)) = h_mcuopen h).
+  { destruct (s_room s) as [k|] eqn:Hk.
+    - destruct (is_virtual (s_kind s)) eqn:Hv; [|left; eapply leave_room_emits_close; eauto].
+      right. unfold leave_room. rewrite Hs, Hk, Hv. cbn [fst]. split.
+      + exists (sess_room s None). split; [|reflexivity]. unfold get_sess. rewrite room_remove_sessions. apply get_put_eq.
+      + rewrite room_remove_open. msimpl. apply rs_del_open.
+    - right. unfold leave_room. rewrite Hs, Hk. cbn [fst]. split; [eauto|reflexivity]. }
+  destruct (leave_room h sid true) as [h1 o1]. cbn [fst snd] in Hcases.
+  assert (Hin : In (ToMcu (MClose tok)) (o1 ++ snd (release_mcu h1 sid))).
+  { apply in_or_app. destruct Hcases as [Hc|[[s1 [Hs1 Ht1]] Ho1]]; [now left|right].
+    apply release_mcu_emits with s1; [exact Hs1| |now rewrite Ho1]. rewrite Ht1. exact Ht. }
+  destruct (release_mcu h1 sid) as [h2a o2a]. cbn [snd] in Hin.
+  assert (Hin2 : forall rest, In (ToMcu (MClose tok)) (o1 ++ (o2a ++ rest))).
+  { intros rest. apply in_app_or in Hin as [H|H]; apply in_or_app; [now left|right; apply in_or_app; now left]. }
+  destruct (s_kind s); cbn [snd]; try apply Hin2. rewrite <- app_assoc. apply Hin2.
+Qed.
+
+Lemma close_all_keeps_outs kids x : forall hh o, In x o -> In x (snd (close_all kids (hh, o))).
+Proof.
+  induction kids as [|k kids IH]; intros hh o Hin; cbn [close_all fold_left snd]; [exact Hin|].
+  destruct (close_one hh k) as [h1 o1]. fold (close_all kids (h1, o ++ o1)). apply IH. apply in_or_app. now left.
+Qed.
+Theorem close_session_emits_close h sid s tok :
+  get_sess h sid = Some s -> In tok (map snd s.(s_pubs) ++ map snd s.(s_subs)) -> In tok (h_mcuopen h) ->
+  In (ToMcu (MClose tok)) (snd (close_session h sid)).
+Proof.
+  intros Hs Ht Ho. unfold close_session. pose proof (close_one_emits_close h sid s tok Hs Ht Ho) as E.
+  destruct (close_one h sid) as [h1 o1]. fold (close_all (children h sid) (h1, o1)). now apply close_all_keeps_outs.
+Qed.
+
+(* a publisher is created only with the permission: an offer the permissions do not allow is refused *)
+Theorem offer_needs_permission h c sid s i stream media :
+  offer_allowed s.(s_perms) stream media = false ->
+  do_media h c sid s (RSession i) 0 stream media = (h, [ToConn c (SError E_not_allowed)]).
+Proof. intros Hoff. unfold do_media. cbn [N.eqb]. now rewrite Hoff. Qed.
